@@ -128,7 +128,9 @@ func StartProxy(cfgYAML string, files map[string]string, o ProxyOpts) (*Proxy, e
 	cmd := exec.Command(bin, args...)
 	cmd.Dir = dir
 	cmd.Env = append(os.Environ(), "MOSPROXY_JSONLOGGER=1", "GORACE=halt_on_error=0 exitcode=66")
-	cmd.Env = append(cmd.Env, o.Env...)
+	for _, e := range o.Env {
+		cmd.Env = append(cmd.Env, strings.ReplaceAll(e, "$DIR", dir))
+	}
 	p := &Proxy{Dir: dir, cmd: cmd, stderr: &lockedBuf{}, exited: make(chan struct{})}
 	cmd.Stderr = p.stderr
 	cmd.Stdout = p.stderr
